@@ -414,6 +414,7 @@ class Engine:
         self.solver_timeout_ms = solver_timeout_ms
         self._fresh_model = None
         self.tainted = False
+        self.max_depth = 6000      # decisions per path (second watchdog)
         self.stats = Stats()
         self.stack = []
         self.scopes = []      # trace positions of the solver scopes
@@ -439,6 +440,7 @@ class Engine:
         self.counter = {}
         self.vars = []        # (name, kind, term)
         self.assumptions = []
+        self.decided = {}
 
     def note_nonlinear(self):
         self.stats.nonlinear_ops += 1
@@ -533,8 +535,7 @@ class Engine:
         knows whether the formula is already in the solver (it is, for every
         position inside the replayed prefix: the prefix ends at the flipped
         decision and every earlier entry lives in a surviving solver scope)."""
-        i = self.pos
-        self.pos += 1
+        i = len(self.trace)      # position = number of entries consumed/produced so far (never out of step)
         if i < len(self.prefix):
             if self.prefix[i][1] != 'A':
                 self.flags.append('nondeterministic-replay')
@@ -567,8 +568,11 @@ class Engine:
     def decide(self, e):
         if self.dead:
             return False
-        i = self.pos
-        self.pos += 1
+        i = len(self.trace)      # position = number of entries consumed/produced so far (never out of step)
+        if i > self.max_depth:
+            # a loop of the code under test that branches on symbolic values forever: the wall-clock watchdog is
+            # paused during solver calls, so the decision count is the second watchdog (same effect as the alarm)
+            raise PathTimeout('decision budget of one path exhausted')
         if i < len(self.prefix):
             b, forced = self.prefix[i]
             if forced == 'A' or forced == 'C':
@@ -582,6 +586,17 @@ class Engine:
             self.trace.append((b, forced))
             return b
         # fresh decision
+        hit = self.decided.get(e.get_id())
+        if hit is not None:
+            # the same formula was decided earlier on this path: the path condition already implies the answer
+            self.trace.append((hit[1], True))
+            return hit[1]
+        r = self._decide_fresh(e)
+        self.decided[e.get_id()] = (e, r)
+        return r
+
+    def _decide_fresh(self, e):
+        i = len(self.trace)
         if self.stale or self.model is None:
             self._refresh()
             if self.dead:
@@ -670,8 +685,7 @@ class Engine:
         self.vars.append((name, 'int', t))
         if self.dead:
             return 0
-        i = self.pos
-        self.pos += 1
+        i = len(self.trace)      # position = number of entries consumed/produced so far (never out of step)
         if i < len(self.prefix):
             v, kind = self.prefix[i]
             if kind != 'C':
@@ -757,7 +771,7 @@ class Engine:
                     self.solver.add(extra)
                 for t in reals:
                     self.solver.add(z3.IsInt(t * scale) if scale != 1 else z3.IsInt(t))
-                self.solver.set('rlimit', self.rlimit // 3)
+                self.solver.set('rlimit', self.rlimit)
                 r = self._check(kind='model', fallback=False)
                 if r == z3.sat:
                     self.model = self._get_model()
@@ -843,8 +857,8 @@ class Engine:
             viol['obs'] = [self.model_value(list(o)) for o in self.obs]
             res['violation'] = viol
         elif want_witness:
-            self.nice_model()
-            res['witness'] = {'inputs': self.inputs_from_model(),
+            nice = self.nice_model()
+            res['witness'] = {'nice': bool(nice), 'inputs': self.inputs_from_model(),
                               'obs': [self.model_value(list(o)) for o in self.obs]}
         return res
 
